@@ -543,6 +543,104 @@ func run(t *rapid.T) {
 			e.m.add(dst, live)
 			e.compareAll(r.Cmd)
 		},
+		// \Deleted is a flag of the message *in one mailbox*, every other flag belongs to the message: a message is copied,
+		// its original is marked \Deleted, another session changes a shared flag through the copy, and the first session
+		// (which has heard of that change) expunges - a sequence the independent actions produce only rarely.
+		"crossBoxDeleted": func(t *rapid.T) {
+			if len(w.S) < 2 {
+				t.Skip("one session only")
+			}
+
+			var cands []*mach.Sess
+
+			for _, s := range w.FreeSelected(false) {
+				if !s.ReadOnly {
+					cands = append(cands, s)
+				}
+			}
+
+			s := w.PickSess(t, cands)
+			e.sync(s)
+
+			if len(s.Mirror.Msgs) == 0 {
+				t.Skip("empty view")
+			}
+
+			var others []*mach.Sess
+
+			for _, o := range w.Free() {
+				if o != s {
+					others = append(others, o)
+				}
+			}
+
+			o := w.PickSess(t, others)
+			src := s.Selected
+
+			var dsts []string
+
+			for _, b := range boxes {
+				if !strings.EqualFold(b, src) {
+					dsts = append(dsts, b)
+				}
+			}
+
+			dst := pick(t, "dst", dsts)
+			p := rapid.IntRange(1, len(s.Mirror.Msgs)).Draw(t, "p")
+
+			step := func(x *mach.Sess, cmd string) {
+				r := x.Do(cmd)
+				e.rec.Op("%s %s -> %s", x.Name, r.Cmd, r.Status)
+
+				if !r.OK() {
+					e.fail("valid %q refused: %v", cmd, r)
+				}
+			}
+
+			step(s, fmt.Sprintf("COPY %d %s", p, bed.Quote(dst)))
+			e.m.copyTo(src, []int{p - 1}, dst)
+
+			if kf.Listed(mach.KfLateLowerUID) && strings.EqualFold(dst, s.Selected) {
+				s.Do("NOOP")
+			}
+
+			step(s, fmt.Sprintf(`STORE %d +FLAGS (\Deleted)`, p))
+			e.m.store(src, []int{p - 1}, "+", []string{`\Deleted`})
+			e.compareAll("COPY + STORE \\Deleted")
+
+			w.Barrier()
+
+			if r := o.Select(dst, false); !r.OK() {
+				e.fail("SELECT refused: %v", r)
+			}
+
+			e.rec.Op("%s select %s ro=false", o.Name, dst)
+			e.sync(o)
+
+			q := len(o.Mirror.Msgs) // the copy is the last message of the destination
+			flag := pick(t, "flag", []string{`\Flagged`, `\Seen`, `\Answered`, "kw"})
+			op := pick(t, "op", []string{"+", "-", ""})
+
+			step(o, fmt.Sprintf("STORE %d %sFLAGS (%s)", q, op, flag))
+			e.m.store(dst, []int{q - 1}, op, []string{flag})
+			e.compareAll("STORE through the copy")
+
+			e.sync(s)
+
+			if rapid.Bool().Draw(t, "close") {
+				r := s.Unselect(true)
+				e.rec.Op("%s %s -> %s", s.Name, r.Cmd, r.Status)
+
+				if !r.OK() {
+					e.fail("CLOSE refused: %v", r)
+				}
+			} else {
+				step(s, "EXPUNGE")
+			}
+
+			e.m.expunge(src, nil)
+			e.compareAll("EXPUNGE after a flag change through the copy in " + dst)
+		},
 		"badseq": func(t *rapid.T) {
 			s := w.PickSess(t, w.FreeSelected(false))
 			e.sync(s)
